@@ -231,8 +231,11 @@ def _payload(n, salt):
     return bytes((i * 7 + salt) & 0xFF for i in range(n))
 
 
-def run_from_payloads(B, eb, pairs, tag):
+def run_from_payloads(B, eb, pairs, tag, stale=None):
     d = B.fresh_dir("c")
+    if stale is not None:
+        # history: the output file already exists (an earlier, LONGER cache file): the new file must replace it, not be written over its start
+        open(f"{d}/out.cache", "wb").write(stale)
     inputs = []
     for i, (uri, data) in enumerate(pairs):
         p = f"{d}/in{i}.bin"
@@ -258,8 +261,10 @@ def run_from_payloads(B, eb, pairs, tag):
     return case, check_cache_file(open(out, "rb").read(), pairs, eb)
 
 
-def run_merge(B, eb, groups):
+def run_merge(B, eb, groups, stale=None):
     d = B.fresh_dir("m")
+    if stale is not None:
+        open(f"{d}/merged.cache", "wb").write(stale)
     files = []
     for gi, pairs in enumerate(groups):
         ins = []
@@ -329,6 +334,22 @@ def bounded(ctx):
                     B.case(("d", eb, n, i, j))
                     if msg:
                         B.fail("duplicate-uri-rejected", case, msg)
+    # (2b) history: the output file exists already and is longer than what is written now (stale tail must not survive)
+    for eb in (1, 8, 64):
+        for n in (1, 2):
+            pairs = [(f"#h{i}", _payload(5 + i, i)) for i in range(n)]
+            for stale in (b"\xbf" + b"\x00" * 700 + b"\xff", b"\xaa" * 3000):
+                case, msg = run_from_payloads(B, eb, pairs, "stale", stale=stale)
+                case["existing_output_file_bytes"] = len(stale)
+                B.case(("stale", eb, n, len(stale)))
+                if msg:
+                    B.fail("cache-file-well-formed", case, "output file existed before (longer): " + msg)
+        groups = [[("#m0", _payload(9, 1))], [("#m1", _payload(3, 2))]]
+        case, msg = run_merge(B, eb, groups, stale=b"\xbf" + b"\x00" * 2000 + b"\xff")
+        case["existing_output_file_bytes"] = 2002
+        B.case(("stale-merge", eb))
+        if msg:
+            B.fail("merge-preserves-pairs", case, "output file existed before (longer): " + msg)
     # (3) merges
     for eb in ([1, 8, 16, 27, 64] if quick else [1, 2, 8, 16, 25, 26, 27, 64, 256, 1024]):
         for k in range(1, 5):
